@@ -507,8 +507,32 @@ pub fn build_runtime() -> Runtime<roto::NoCtx> {
         }
     })
     .expect("register host library");
+    // types whose `to_string` does not have the signature an f-string needs (only used by the
+    // ill-typed snippets of C07): an extra parameter, another result type, no receiver
+    rt.add(library! {
+        #[copy] type Tpad = Val<Tpad>;
+        #[copy] type Tnum = Val<Tnum>;
+        fn mkpad() -> Val<Tpad> { Val(Tpad(1)) }
+        fn mknum() -> Val<Tnum> { Val(Tnum(2)) }
+        impl Val<Tpad> {
+            fn to_string(self, width: u64) -> RotoString {
+                RotoString::from(format!("{:>1$}", self.0.0, width as usize % 16))
+            }
+        }
+        impl Val<Tnum> {
+            fn to_string(self) -> u32 {
+                self.0.0
+            }
+        }
+    })
+    .expect("register odd to_string types");
     rt
 }
+
+#[derive(Debug, Clone, Copy, PartialEq)]
+pub struct Tpad(pub u32);
+#[derive(Debug, Clone, Copy, PartialEq)]
+pub struct Tnum(pub u32);
 
 /// Render a report without colour.
 pub fn render_report(r: &roto::RotoReport) -> String {
